@@ -201,3 +201,9 @@ Definition cfg_spec_ok (c : cfg_case) : bool :=
       (* the cookie consulted is a configured one or the default *)
       (mem_str (o_cookie o) (in_cookie_names i) || str_eqb (o_cookie o) s_default_cookie)
   end.
+
+(* two blocks naming the same Bolt file: the second is refused, or runs with its own retention size *)
+Record path_case := { pc_size_b : N; pc_published : N; pc_b_refused : bool; pc_b_retained : N }.
+Definition path_ok (c : path_case) : bool :=
+  pc_b_refused c ||
+  N.eqb (pc_b_retained c) (if N.eqb (pc_size_b c) 0 then pc_published c else N.min (pc_published c) (pc_size_b c)).
